@@ -235,4 +235,24 @@ theorem read_back_written_page (c : ColSpec) (hv : c.v2 = false) (hpt : c.ptype 
         simp only [levelsOf, hn, if_true] at this
         rw [this]
 
+/-! ### the chunk statistics and the reader's shortcut -/
+
+theorem nonNull_full_no_null (cells : List Cell) (h : cells.length - (nonNull cells).length = 0) : ∀ v ∈ cells, v ≠ Cell.null := by
+  have hlen : (nonNull cells).length = cells.length := by have := nonNull_length_le cells; omega
+  have := List.length_filter_eq_length_iff.mp (by unfold nonNull at hlen; exact hlen)
+  intro v hv
+  simpa using this v hv
+
+/-- a recorded null count of 0 means no page of the chunk holds a null (the tallies are naturals, so they are all 0) -/
+theorem no_null_of_count_zero (pages : List (List Cell)) (h : writerNullCount pages = 0) : ∀ p ∈ pages, ∀ v ∈ p, v ≠ Cell.null := by
+  unfold writerNullCount at h
+  induction pages with
+  | nil => intro p hp; cases hp
+  | cons q qs ih =>
+    simp only [List.map_cons, List.sum_cons] at h
+    intro p hp
+    rcases List.mem_cons.mp hp with rfl | hp'
+    · exact nonNull_full_no_null p (by omega)
+    · exact ih (by omega) p hp'
+
 end PqV.Impl
